@@ -31,7 +31,7 @@ var Metas = map[string]*Meta{
 			"inputs are sampled; the partition dimension is enumerated completely only for inputs <= 14 bytes",
 		},
 		Components: map[string]any{"real": realCommon, "simulated_environment": []string{"io.Reader (sim.Stream: delivery plan)", "storage: scratch directory on the real file system with plain / .gz / two-member .gz / missing / missing parent / path through a regular file"}, "stubbed": []string{}},
-		Runs:       map[string]int{"quick": 1600, "thorough": 80000},
+		Runs:       map[string]int{"quick": 12000, "thorough": 900000},
 		Run:        RunC06,
 	},
 	"C15": {
@@ -45,7 +45,7 @@ var Metas = map[string]*Meta{
 			"map iteration order inside ForEach is chosen by the simulator through the verif-tagged hook trie.SimKeyOrder; verdicts do not depend on the hook being reached",
 		},
 		Components: map[string]any{"real": []string{"biostuff trie (built from /repo's working tree with -tags verif)", "encoding/json"}, "simulated_environment": []string{"the caller: operation history, restart points, buffer reuse", "map iteration order in trie.keys() via the guarded hook"}, "stubbed": []string{}},
-		Runs:       map[string]int{"quick": 6000, "thorough": 400000},
+		Runs:       map[string]int{"quick": 150000, "thorough": 3500000},
 		Run:        RunC15,
 	},
 	"C16": {
@@ -61,7 +61,7 @@ var Metas = map[string]*Meta{
 		Components: map[string]any{"real": []string{"biostuff regions (operation-granular phase and the sweep: the package itself, built from /repo's working tree)"},
 			"instrumented_copy":     []string{"regions/*.go of the working tree with simrt.Yield inserted before every statement and sync replaced by cooperative shims (statement-granular phase); nothing else changed"},
 			"simulated_environment": []string{"callers sharing the index", "the scheduler (who runs next at every yield)", "callers scribbling over returned slices"}, "stubbed": []string{}},
-		Runs: map[string]int{"quick": 12000, "thorough": 1500000},
+		Runs: map[string]int{"quick": 400000, "thorough": 40000000},
 		Run:  RunC16,
 	},
 	"C18": {
@@ -75,7 +75,7 @@ var Metas = map[string]*Meta{
 			"an iterator that keeps reading (without calling back) after the consumer declined is not flagged: the property does not state it",
 		},
 		Components: map[string]any{"real": append([]string{"biostuff newick traversal, trie.ForEach, sequtil.CanonicalSubsequences"}, realCommon...), "simulated_environment": []string{"the consumer (stop position, style)", "io.Reader with delivery plan and fault", "storage configurations on the real file system", "map iteration order via the guarded hook"}, "stubbed": []string{}},
-		Runs:       map[string]int{"quick": 16000, "thorough": 800000},
+		Runs:       map[string]int{"quick": 400000, "thorough": 20000000},
 		Run:        RunC18,
 	},
 	"C07": {
@@ -91,7 +91,7 @@ var Metas = map[string]*Meta{
 			"input dimension is sampled; fault offset dimension is enumerated completely per input (stratified for 4-10 KiB inputs in the quick tier)",
 		},
 		Components: map[string]any{"real": realCommon, "simulated_environment": []string{"io.Reader (sim.Stream: delivery plan + fault)", "io.Writer (sim.Sink: acceptance plan)", "consumer that keeps iterating past errors", "storage: scratch directory on the real file system (directory-as-path, torn .gz)"}, "stubbed": []string{}},
-		Runs:       map[string]int{"quick": 1600, "thorough": 60000},
+		Runs:       map[string]int{"quick": 10000, "thorough": 200000},
 		Run:        RunC07,
 	},
 }
